@@ -60,6 +60,10 @@ def plan(tier: str, seed: int) -> Plan:
         conds.append(Condition(f"partial:{q}:take={take}", "partial", H, "partial", {"qtext": q, "maxn": 1 if take is None else 0, "take": take}, T * 2, required=False,
                                bounds="match(), or an iterator advanced 0..4 times and abandoned, then full evaluations of the same compiled "
                                       "query on another and on the same document"))
+    for q in ["$.xs[?@.a == $.k]", "$..[?@.a == $.k]", "$.xs", "$.xs[?count($.xs[?@.a == 1]) > 1 && # > 0]"]:
+        conds.append(Condition(f"text-reuse:{q}", "text", H, "text_reuse", {"qtext": q}, T * 2, required=False,
+                               bounds="document given as JSON text (leaves from a pool of 3: json.dumps concretises), results edited by the caller, then "
+                                      "the same text evaluated again by the same or another compiled query"))
     return Plan(
         conditions=conds,
         explanation=(
